@@ -2,6 +2,7 @@
    watch: every directory ends up watched under its name, nothing crashes, and the delivered stream holds exactly one
    created event per new entry of the tree, so that replaying it reproduces the tree -/
 import WD.Model.PipelineBurst
+import WD.Proofs.Pipeline.Departed
 import WD.Proofs.Pipeline.RenameIn
 import WD.Proofs.Pipeline.Run
 import WD.Proofs.Pipeline.Tree
@@ -1003,7 +1004,7 @@ theorem burst_grow (s : Sys) (ops : List Op) (inv : InvRec s.fs s.k s.lib) (hs :
   have hburst : s.burst ops = ({ s with fs := fsRun s.fs ops, k := kY, lib := libY, stopped := false },
       levs.flatMap (fun l => (emit (fsRun s.fs ops) true s.full (.one l)).1)) := by
     unfold Sys.burst
-    simp only [hk, hs, hc, Bool.or_self, Bool.false_eq_true, if_false, hb, hem, hmo]
+    simp only [hk, hs, hc, Bool.or_self, Bool.false_eq_true, if_false, hb, hem, departed_nil _ hmo]
     simp [forgetAll_nil]
   have hdis : ∀ x ∈ creates levs, ∀ y ∈ treeW s.fs, y.1 ≠ x.1 := by
     intro x hx y hy hxy
